@@ -455,7 +455,7 @@ PROPS["C19"] = {
 PROPS["C20"] = {
     "title": "Exports and persistence are faithful",
     "kani": lambda tier: [],
-    "verus": [("gfalinks", r"^(gfa_links|gfa_s_line|DebruijnGraph::gfa_all_nodes|DebruijnGraph::node_to_gfa|lemma_flat_frame|DnaStringSlice::to_dna_string)$"),
+    "verus": [("gfalinks", r"^(gfa_links|gfa_s_line|DebruijnGraph::gfa_all_nodes|DebruijnGraph::gfa_all_nodes_tagged|DebruijnGraph::node_to_gfa|lemma_flat_frame|DnaStringSlice::to_dna_string)$"),
               ("jsonlinks", r"^DebruijnGraph::(json_links_step|json_last_with_links|json_nodes_step)$|^Node::(edge_json_step|edges_to_json)$")],
     "bounded": lambda tier: [],
     "design_ref": "DESIGN.md §6 C20",
